@@ -2,7 +2,7 @@
 From Coq Require Import List NArith String Bool Ascii.
 From V Require Import Base.Util Base.Strings Base.Result Model.Registry Model.Settings Model.Subst
   Model.TypePath Model.Derives Model.Generate Model.Emit Model.Equal Model.Builders
-  Checkers.Parse Checkers.Sem Corr.RunTG Corr.CheckTG.
+  Checkers.Parse Checkers.Sem Corr.RunTG Corr.TeqTrace Corr.CheckTG.
 Import ListNotations.
 Open Scope string_scope. Open Scope list_scope.
 
@@ -11,7 +11,11 @@ Record dd_case := mk_dd {
   dd_before : tg_case;                         (* original registry, default settings *)
   dd_once : obs (list (list string));          (* entry paths after one pass *)
   dd_twice : obs (list (list string));         (* ... after a second pass *)
-  dd_after : option tg_case }.                 (* the observed de-duplicated registry, generated *)
+  dd_after : option tg_case;                   (* the observed de-duplicated registry, generated *)
+  dd_defs : list (option N) }.                 (* per entry of the original registry: index of the SOURCE
+                                                  definition it is an instantiation of (known to the
+                                                  program-based generators; [None] = not a named
+                                                  definition / registry not built from a program) *)
 
 Definition paths_of (r : registry) : list (list string) := map (fun e => t_path (snd e)) r.
 Definition paths_eqb : list (list string) -> list (list string) -> bool := list_eqb path_eqb.
@@ -78,6 +82,34 @@ Definition ty_same_but_path (a b : ty) : bool :=
   list_eqb String.eqb (t_docs a) (t_docs b) &&
   list_eqb N.eqb (def_ids (t_def a)) (def_ids (t_def b)).
 
+(** "definitions untouched", exactly: EVERYTHING of the entry except its path is as before - parameter
+    names and ids, docs, and the whole definition: field names, ids, recorded type names and docs;
+    variant names, indices and docs; array lengths; primitive kinds; tuple / sequence / compact /
+    bit-sequence ids *)
+Definition field_eqb (a b : field) : bool :=
+  option_eqb String.eqb (f_name a) (f_name b) && N.eqb (f_ty a) (f_ty b) &&
+  option_eqb String.eqb (f_type_name a) (f_type_name b) && list_eqb String.eqb (f_docs a) (f_docs b).
+Definition variant_eqb (a b : variant) : bool :=
+  String.eqb (v_name a) (v_name b) && list_eqb field_eqb (v_fields a) (v_fields b) &&
+  N.eqb (v_index a) (v_index b) && list_eqb String.eqb (v_docs a) (v_docs b).
+Definition typedef_eqb (a b : typedef) : bool :=
+  match a, b with
+  | TDComposite x, TDComposite y => list_eqb field_eqb x y
+  | TDVariant x, TDVariant y => list_eqb variant_eqb x y
+  | TDSequence x, TDSequence y => N.eqb x y
+  | TDArray n x, TDArray m y => N.eqb n m && N.eqb x y
+  | TDTuple x, TDTuple y => list_eqb N.eqb x y
+  | TDPrimitive x, TDPrimitive y => prim_eqb x y
+  | TDCompact x, TDCompact y => N.eqb x y
+  | TDBitSeq s o, TDBitSeq s' o' => N.eqb s s' && N.eqb o o'
+  | _, _ => false
+  end.
+Definition ty_eqb_but_path (a b : ty) : bool :=
+  list_eqb (fun p q => String.eqb (tp_name p) (tp_name q) && option_eqb N.eqb (tp_ty p) (tp_ty q))
+           (t_params a) (t_params b) &&
+  typedef_eqb (t_def a) (t_def b) &&
+  list_eqb String.eqb (t_docs a) (t_docs b).
+
 Definition prop_frame (c : dd_case) : bool :=
   let r := tg_reg (dd_before c) in
   match dd_once c with
@@ -90,7 +122,8 @@ Definition prop_frame (c : dd_case) : bool :=
           Nat.eqb (List.length r') (List.length r) &&
           paths_eqb (paths_of r') ps &&
           forallb (fun ab : (N * ty) * (N * ty) =>
-                     N.eqb (fst (fst ab)) (fst (snd ab)) && ty_same_but_path (snd (fst ab)) (snd (snd ab)))
+                     N.eqb (fst (fst ab)) (fst (snd ab)) && ty_same_but_path (snd (fst ab)) (snd (snd ab)) &&
+                     ty_eqb_but_path (snd (fst ab)) (snd (snd ab)))
                   (combine r r')
       | None => false
       end
@@ -170,6 +203,182 @@ Definition known_not_fixpoint (c : dd_case) : bool :=
 Definition prop_no_conflation (c : dd_case) : bool := faithful_obs (dd_before c).
 Definition prop_dedup_no_conflation (c : dd_case) : bool :=
   match dd_after c with Some a => faithful_obs a | None => true end.
+
+(** C03, first clause read on the outcome itself (G9): on a well-formed registry with supported
+    settings generation is [Ok], or fails with the DUPLICATE-PATH error whose message is the
+    [::]-joined path of a family that really has two or more item-eligible members - never a panic,
+    never another error kind.  ([prop_no_conflation] says nothing about a failed run.)  The same for
+    the de-duplicated registry. *)
+Definition eligible_family_paths (r : registry) (s : settings) : list (list string) :=
+  let ps := map (fun e => t_path (snd e)) (filter (fun e => item_eligible s (snd e)) r) in
+  filter (fun p => Nat.leb 2 (List.length (filter (path_eqb p) ps))) ps.
+
+Definition family_outcome_ok (t : tg_case) : bool :=
+  if hyp_wf t then
+    match tg_gen t with
+    | OOk _ => true
+    | OErr k nums msg =>
+        String.eqb k "DuplicateTypePath" && list_eqb N.eqb nums [] &&
+        existsb (fun p => String.eqb msg (join "::" p))
+                (eligible_family_paths (tg_reg t) (settings_of (tg_spec t)))
+    | OPanic => false
+    end
+  else true.
+
+Definition prop_family_outcome (c : dd_case) : bool :=
+  family_outcome_ok (dd_before c) &&
+  match dd_after c with Some a => family_outcome_ok a | None => true end.
+
+(** hit counters: the hypothesis holds on the original registry and it has a family of item-eligible
+    members; ... and generation actually failed with the duplicate-path error *)
+Definition hyp_family_wf (c : dd_case) : bool :=
+  hyp_wf (dd_before c) &&
+  match eligible_family_paths (tg_reg (dd_before c)) (settings_of (tg_spec (dd_before c))) with
+  | [] => false | _ => true end.
+Definition hyp_family_dup (c : dd_case) : bool :=
+  hyp_family_wf c && gen_kind_is (dd_before c) "DuplicateTypePath".
+
+(** ** C04: instantiations of one generic definition still share one path (G3).
+    [dd_defs] labels the entries that the generator interned as instantiations of one SOURCE definition
+    (the harness labels only definitions that no skipped parameter and no Box<T> / Cow<T> takes out
+    of the clause's class).  Two such entries are compared when their generated SKELETONS agree
+    (item tokens with the concrete ids abstracted, [skeleton_tokens] without substitutes): an argument
+    that coincides with a concrete field type of hand-built metadata WITHOUT recorded type names
+    changes the skeleton of that one instantiation (the field becomes the parameter) - such a pair
+    is outside the "coincidence-free" quantifier and rightly split.  Coincidences that leave the
+    skeleton alone stay inside: splitting them is the recorded finding F18.
+    After one pass two compared entries must carry the same path. *)
+Definition same_label (a b : option N) : bool :=
+  match a, b with Some x, Some y => N.eqb x y | _, _ => false end.
+
+(** positions i < j with one label *)
+Definition inst_pairs (c : dd_case) : list (N * N) :=
+  let l := combine (ids_of (tg_reg (dd_before c))) (dd_defs c) in
+  flat_map (fun a : N * option N =>
+              flat_map (fun b : N * option N =>
+                          if N.ltb (fst a) (fst b) && same_label (snd a) (snd b) then [(fst a, fst b)] else [])
+                       l) l.
+
+(** the labelling itself is sane: one label per entry, same label => same original path and both
+    entries are composite / variant definitions *)
+Definition corr_dd_labels (c : dd_case) : bool :=
+  let r := tg_reg (dd_before c) in
+  Nat.eqb (List.length (dd_defs c)) (List.length r) &&
+  forallb (fun ij : N * N =>
+             match resolve r (fst ij), resolve r (snd ij) with
+             | Some a, Some b => path_eqb (t_path a) (t_path b) &&
+                                 is_composite_or_variant (t_def a) && is_composite_or_variant (t_def b)
+             | _, _ => false
+             end) (inst_pairs c).
+
+(** skeleton of every namespaced entry (de-duplication does not look at the settings) *)
+Definition dd_skels (c : dd_case) : list (option tokens) :=
+  let r := tg_reg (dd_before c) in
+  let s := no_subs (settings_of (tg_spec (dd_before c))) in
+  map (fun e => match namespace (t_path (snd e)) with
+                | [] => None
+                | _ => skeleton_tokens r s (snd e)
+                end) r.
+
+Definition skel_at (sk : list (option tokens)) (i : N) : option tokens := nth (N.to_nat i) sk None.
+Definition skel_same (sk : list (option tokens)) (i j : N) : bool :=
+  match skel_at sk i, skel_at sk j with Some a, Some b => tokens_eqb a b | _, _ => false end.
+Definition skel_differ (sk : list (option tokens)) (i j : N) : bool :=
+  match skel_at sk i, skel_at sk j with Some a, Some b => negb (tokens_eqb a b) | _, _ => false end.
+
+Definition compared_pairs (c : dd_case) : list (N * N) :=
+  let sk := dd_skels c in
+  filter (fun ij : N * N => skel_same sk (fst ij) (snd ij)) (inst_pairs c).
+
+Definition split_pairs (c : dd_case) : list (N * N) :=
+  match dd_once c with
+  | OOk ps =>
+      filter (fun ij : N * N => negb (path_eqb (nth (N.to_nat (fst ij)) ps []) (nth (N.to_nat (snd ij)) ps [])))
+             (compared_pairs c)
+  | _ => []
+  end.
+
+Definition prop_instantiations_stay (c : dd_case) : bool :=
+  match split_pairs c with [] => true | _ => false end.
+
+(** the observed group of x: entries with x's original path that received x's new path *)
+Definition group_of (c : dd_case) (ps : list (list string)) (x : N) : list N :=
+  let r := tg_reg (dd_before c) in
+  match resolve r x with
+  | None => []
+  | Some tx =>
+      flat_map (fun ke : N * (N * ty) =>
+                  if path_eqb (t_path (snd (snd ke))) (t_path tx) &&
+                     path_eqb (nth (N.to_nat (fst ke)) ps []) (nth (N.to_nat x) ps [])
+                  then [fst ke] else []) (combine (ids_of r) r)
+  end.
+
+(** F18 seen by this clause: [types_equal] is incomplete.  The grouping compares an entry with the
+    FIRST member of every group only, so the pair (i, j) is explained when the MODEL's
+    [types_equal_res] says "different" for j and some member k of i's observed group that has the
+    very skeleton of i and j (k = i included), in either direction - or the same with i and j
+    exchanged.  An implementation that splits where the model sees no such verdict is not covered
+    (and breaks [corr_dedup] as well). *)
+Definition says_different (r : registry) (a b : N) : bool :=
+  match types_equal_res r a b, types_equal_res r b a with
+  | Ok false, _ | _, Ok false => true
+  | _, _ => false
+  end.
+
+Definition split_by_F18 (c : dd_case) (sk : list (option tokens)) (ij : N * N) : bool :=
+  let r := tg_reg (dd_before c) in
+  match dd_once c with
+  | OOk ps =>
+      let one (x y : N) :=   (* y against the members of x's group *)
+        existsb (fun k => negb (N.eqb k y) && skel_same sk k y && says_different r y k) (group_of c ps x) in
+      one (fst ij) (snd ij) || one (snd ij) (fst ij)
+  | _ => false
+  end.
+
+Definition known_F18_split (c : dd_case) : bool :=
+  let sk := dd_skels c in
+  match split_pairs c with
+  | [] => false
+  | l => forallb (split_by_F18 c sk) l
+  end.
+
+(** F3 seen by this clause: one of the two instantiations was ABSORBED by a differently shaped
+    member of the family - its observed group contains an entry k whose skeleton differs from its
+    own and the MODEL's traced [types_equal] says "equal" for the two with one of the recorded
+    shortcuts deciding (same id under different parameter bindings / both visited / nested generic,
+    Corr/TeqTrace.v); the other instantiation, compared with that group's first member, is
+    (rightly) different.  Witness corpus/families/F03_split_instantiations.json:
+    a::F<T = u8> { x: u16 }, then a::F<T> { x: T } at u16 and at u8 - the instantiation at u16 is merged
+    with the first entry (the field ids are equal), the one at u8 is not. *)
+Definition split_by_F3 (c : dd_case) (sk : list (option tokens)) (ij : N * N) : bool :=
+  let r := tg_reg (dd_before c) in
+  match dd_once c with
+  | OOk ps =>
+      let absorbed (x : N) :=
+        existsb (fun k => skel_differ sk k x &&
+                          match types_equal_traced r (N.max x k) (N.min x k) with
+                          | Ok (true, hits) => N.ltb 0 hits
+                          | _ => false
+                          end) (group_of c ps x) in
+      absorbed (fst ij) || absorbed (snd ij)
+  | _ => false
+  end.
+
+Definition known_F3_split (c : dd_case) : bool :=
+  let sk := dd_skels c in
+  match split_pairs c with
+  | [] => false
+  | l => forallb (fun ij => split_by_F18 c sk ij || split_by_F3 c sk ij) l && existsb (split_by_F3 c sk) l
+  end.
+
+Definition hyp_instantiations (c : dd_case) : bool :=
+  match compared_pairs c with [] => false | _ => true end.
+(** ... in a registry where something was renamed (the clause has something to say) *)
+Definition hyp_instantiations_renamed (c : dd_case) : bool := hyp_instantiations c && hyp_renamed c.
+(** same-label pairs left out because their skeletons differ *)
+Definition hyp_instantiations_skel_differ (c : dd_case) : bool :=
+  let sk := dd_skels c in
+  existsb (fun ij : N * N => skel_differ sk (fst ij) (snd ij)) (inst_pairs c).
 
 (** classifiers for the recorded unsoundness of [types_equal] (utils.rs:101-281): the family
     that is conflated is not skeleton-consistent although generation succeeded *)
